@@ -325,6 +325,31 @@ def weights_rules(chk, ctx):
         if isinstance(n, ast.Nonlocal):
             cursor = n.names[0]
     form = "singledispatch registry"
+    if handlers:
+        # one function registered for several kinds tests the kind itself: specialise it per kind
+        def _kinds_of(e):
+            if isinstance(e, ast.Name):
+                return {e.id}
+            if isinstance(e, ast.Tuple):
+                return {x.id for x in e.elts if isinstance(x, ast.Name)}
+            return set()
+
+        class _Spec(ast.NodeTransformer):
+            def __init__(self, kind, var):
+                self.kind, self.var = kind, var
+
+            def visit_Call(self, node):
+                self.generic_visit(node)
+                if getattr(node.func, "id", None) == "isinstance" and len(node.args) == 2 and isinstance(node.args[0], ast.Name) \
+                        and node.args[0].id == self.var:
+                    return ast.copy_location(ast.Constant(self.kind in _kinds_of(node.args[1])), node)
+                return node
+        for kind_, h_ in list(handlers.items()):
+            if h_.args.args and any(isinstance(x, ast.Call) and getattr(x.func, "id", None) == "isinstance" for x in ast.walk(h_)):
+                h2 = _Spec(kind_, h_.args.args[0].arg).visit(copy.deepcopy(h_))
+                h2.decorator_list = []
+                ast.fix_missing_locations(h2)
+                handlers[kind_] = h2
     if not handlers:
         # second form: the actions of the dry run are dispatched by an isinstance chain inside the loop that walks the
         # scratch schedule; the handler of a kind is the loop body specialised to that kind
